@@ -77,8 +77,41 @@ func CompileSpec(cfg *CfgSpec, prog *Node, mask int, viaDirective bool, compileE
 	}()
 	host.CompileEnv = nil
 	if c.Expr != nil && cfg.Event != "" {
+		// The program is fixed by Compile: what Dump/DumpTable show must not
+		// depend on whether the event channel has been attached yet, nor on
+		// which rendering was asked for first (checked on a fifth of the
+		// compilations; the choice is a pure function of the source).
+		var pre [3]string
+		probe := pan == nil && len(src)%5 == 0
+		render := func() (t [3]string) {
+			defer func() {
+				if r := recover(); r != nil {
+					pan = fmt.Sprintf("Dump/DumpTable panicked: %v\n%s", r, debug.Stack())
+				}
+			}()
+			if len(src)%2 == 0 {
+				t[1] = eval.DumpTable(c.Expr, true)
+				t[0] = eval.DumpTable(c.Expr, false)
+			} else {
+				t[0] = eval.DumpTable(c.Expr, false)
+				t[1] = eval.DumpTable(c.Expr, true)
+			}
+			t[2] = eval.Dump(c.Expr)
+			return
+		}
+		if probe {
+			pre = render()
+		}
 		c.Ch = inlineCh
 		c.Expr.EventChan = c.Ch
+		if probe && pan == nil {
+			post := render()
+			for i, what := range []string{"DumpTable(expr, false)", "DumpTable(expr, true)", "Dump(expr)"} {
+				if pan == nil && pre[i] != post[i] {
+					pan = fmt.Sprintf("%s differs before and after the event channel is attached (the program is fixed by Compile):\nbefore:\n%s\nafter:\n%s", what, pre[i], post[i])
+				}
+			}
+		}
 	}
 	return
 }
